@@ -57,8 +57,8 @@ func zzAsParseResult(t *task, name string, r SearchResult) (parser.Result, error
 func HarnessC06Sched() {
 	n := 2
 	pre := 2
-	if zz.Tier() == 1 {
-		n, pre = 3, 2
+	if zz.Tier() == 1 && zz.Choice(2) == 1 {
+		n, pre = 3, 1 // thorough: additionally every graph on 3 files at delay bound 1
 	}
 	names := []string{"a.proto", "b.proto", "c.proto"}[:n]
 	var adj [3][3]bool
